@@ -1,3 +1,4 @@
+import zlib
 """Generators for the correspondence streams.  Every random choice comes from one
 random.Random(seed); strings are lists of code points until they are encoded into tokens."""
 import random, itertools
@@ -20,12 +21,20 @@ def utf16_units(cps):
             c -= 0x10000; out += [0xD800 + (c >> 10), 0xDC00 + (c & 0x3FF)]
     return out
 
-def tok_units(enc, units, form="s"):
+def tok_units(enc, units, form=None):
+    """form: s = std::basic_string, v = pointer + length view into an exactly sized buffer without terminator,
+    z = zero-terminated pointer.  When the caller does not care, the form is derived from the content (so that
+    every stream exercises all three argument forms, deterministically)."""
     w = {"b": 2, "c": 2, "h": 4}.get(enc, 8)
+    hexs = "".join("%0*X" % (w, u) for u in units)
+    if form is None:
+        form = "svz"[zlib.crc32(hexs.encode()) % 3]
+        if form == "z" and 0 in units:
+            form = "v"
     f = form if form != "s" else ""
-    return "%s%s:%s" % (enc, f, "".join("%0*X" % (w, u) for u in units))
+    return "%s%s:%s" % (enc, f, hexs)
 
-def tok(cps, enc="b", form="s"):
+def tok(cps, enc="b", form=None):
     """Encode a scalar-value string (list of ints or str) in the given encoding."""
     if isinstance(cps, str):
         cps = [ord(ch) for ch in cps]
@@ -142,6 +151,9 @@ def gen_relative(r):
 BASES = [
     None,
     "http://example.org/foo/bar?q#f",
+    "http://:pw@h/a/b?q#f",                 # password without username
+    "non-spec://:p%40w@h:5/a/b",
+    "https://u@h/p/q",                      # username only
     "https://u:p@h:8443/a/b/../c/",
     "file:///C:/dir/file",
     "file://host/share/x",
